@@ -61,18 +61,26 @@ Inductive event :=
 
 (* ---- the protocol's terms ---- *)
 Definition ck0 : term := TData [0].
-Definition h0 : term := TData [1].
 Definition DOM : term := TData [2].
 Definition empty : term := TData [].
 
 Definition signed_part (s : N) : term := TPair DOM (TPub s).
 Definition payload (a s : N) : term := TPair (TIdPub a) (TSig a (signed_part s)).
 
+(* the handshake hash starts from the protocol name and the prologue (MixHash(prologue)): empty for
+   TCP and WebSocket, "libp2p-webrtc-noise:" ++ the two DTLS fingerprints for WebRTC *)
+Definition h0 (p : list N) : term := THash (TData [1]) (TData p).
+
 (* transcript hash after message 1 (-> e, empty payload) *)
-Definition hm1 (E : term) : term := THash (THash h0 E) empty.
+Definition hm1 (p : list N) (E : term) : term := THash (THash (h0 p) E) empty.
+
+Section DY.
+  (* the prologue each session was created with, indexed by the session's ephemeral secret (every
+     session has its own): an ARBITRARY assignment, so sessions may disagree about it *)
+  Variable pro : N -> list N.
 
 (* message 2 as the listener (secrets e, s) builds it for a received g^y *)
-Definition l_h1 (e y : N) : term := THash (hm1 (TPub y)) (TPub e).
+Definition l_h1 (e y : N) : term := THash (hm1 (pro e) (TPub y)) (TPub e).
 Definition l_k1 (e y : N) : term := TMix ck0 (dh e y).
 Definition l_c1 (e s y : N) : term := TEnc (l_k1 e y) (l_h1 e y) (TPub s).
 Definition l_h2 (e s y : N) : term := THash (l_h1 e y) (l_c1 e s y).
@@ -82,7 +90,7 @@ Definition l_h3 (a e s y : N) : term := THash (l_h2 e s y) (l_c2 a e s y).
 Definition msg2 (a e s y : N) : term := TPair (TPub e) (TPair (l_c1 e s y) (l_c2 a e s y)).
 
 (* message 2 as the dialer (ephemeral e) expects it: ephemeral g^y, static g^rs, identity P *)
-Definition d_h1 (e y : N) : term := THash (hm1 (TPub e)) (TPub y).
+Definition d_h1 (e y : N) : term := THash (hm1 (pro e) (TPub e)) (TPub y).
 Definition d_k1 (e y : N) : term := TMix ck0 (dh e y).
 Definition d_c1 (e y rs : N) : term := TEnc (d_k1 e y) (d_h1 e y) (TPub rs).
 Definition d_h2 (e y rs : N) : term := THash (d_h1 e y) (d_c1 e y rs).
@@ -106,7 +114,6 @@ Definition l_key (e s y rs : N) : term := TMix (l_k2 e s y) (dh e rs).
 Definition l_c4 (a e s y rs P : N) : term := TEnc (l_key e s y rs) (l_h4 a e s y rs) (payload P rs).
 Definition msg3_expected (a e s y rs P : N) : term := TPair (l_c3 a e s y rs) (l_c4 a e s y rs P).
 
-Section DY.
   Variable asec : N -> Prop.     (* Diffie-Hellman secrets owned by the attacker *)
   Variable bad : N -> Prop.      (* agents whose identity secret the attacker knows *)
 
@@ -600,27 +607,242 @@ Section DY.
       + pose proof (owner_unique tr (NewL P' e2 s) _ s V O ND) as Q.
         cbn in Q. discriminate Q; auto.
   Qed.
+  (* ================================================================================ *)
+  (* ---- where ciphertexts come from: transcript agreement ---- *)
+  (* a ciphertext under a key the attacker cannot know was made by an honest session: by a
+     listener session writing message 2, or by a dialer session writing message 3 *)
+  Definition honest_enc (tr : list event) (c : term) : Prop :=
+    (exists a e s y, In (NewL a e s) tr /\ (c = l_c1 e s y \/ c = l_c2 a e s y)) \/
+    (exists a e s y rs P, In (AcceptD a e s P rs (d_key e s y rs)) tr /\
+                          (c = d_c3 e s y rs P \/ c = d_c4 a e s y rs P)).
+
+  Fixpoint encok (tr : list event) (t : term) : Prop :=
+    match t with
+    | TEnc k h pt => (pub k \/ honest_enc tr (TEnc k h pt)) /\ encok tr k /\ encok tr h /\ encok tr pt
+    | TSig _ u => encok tr u
+    | TPair a b | TMix a b | THash a b => encok tr a /\ encok tr b
+    | _ => True
+    end.
+
+  Lemma honest_enc_mono tr tr' c : incl tr tr' -> honest_enc tr c -> honest_enc tr' c.
+  Proof.
+    intros I [(a & e & s & y & N0 & E)|(a & e & s & y & rs & P & A & E)].
+    - left. exists a, e, s, y. split; [apply I; exact N0|exact E].
+    - right. exists a, e, s, y, rs, P. split; [apply I; exact A|exact E].
+  Qed.
+
+  Lemma encok_mono tr tr' t : incl tr tr' -> encok tr t -> encok tr' t.
+  Proof.
+    intros I. induction t; cbn [encok]; try tauto.
+    intros [[B|Hc] R]; (split; [|tauto]); [left; exact B | right; exact (honest_enc_mono _ _ _ I Hc)].
+  Qed.
+
+  Lemma encok_dh tr x y : encok tr (dh x y).
+  Proof. unfold dh. destruct (x <=? y); exact I. Qed.
+
+  Lemma knows_encok tr :
+    (forall t, In (Send t) tr -> pub t) -> (forall t, In (Send t) tr -> encok tr t) ->
+    forall t, knows tr t -> encok tr t.
+  Proof.
+    intros SP SE t K. induction K; cbn [encok] in *; try tauto.
+    - apply SE. assumption.
+    - apply encok_dh.
+    - split; [|tauto]. left. exact (knows_pub tr SP _ K1).
+  Qed.
+
+  Lemma payload_encok tr a s : encok tr (payload a s).
+  Proof. cbn. tauto. Qed.
+
+  Ltac atoms := repeat (cbn [encok]; first [exact I | apply encok_dh | split]).
+
+  Lemma l_c1_encok tr a e s y : In (NewL a e s) tr -> encok tr (l_c1 e s y).
+  Proof.
+    intros N0. unfold l_c1. cbn [encok]. split.
+    - right. left. exists a, e, s, y. split; [exact N0|left; reflexivity].
+    - unfold l_k1, l_h1, hm1, h0, ck0, empty. atoms.
+  Qed.
+
+  Lemma l_c2_encok tr a e s y : In (NewL a e s) tr -> encok tr (l_c2 a e s y).
+  Proof.
+    intros N0. pose proof (l_c1_encok tr a e s y N0) as C1.
+    unfold l_c2. cbn [encok]. split; [|split; [|split]].
+    - right. left. exists a, e, s, y. split; [exact N0|right; reflexivity].
+    - unfold l_k2, l_k1, ck0. atoms.
+    - unfold l_h2. cbn [encok]. split; [|exact C1]. unfold l_h1, hm1, h0, empty. atoms.
+    - apply payload_encok.
+  Qed.
+
+  Lemma d_h3_encok tr e y rs P :
+    encok tr (d_c1 e y rs) -> encok tr (d_c2 e y rs P) -> encok tr (d_h3 e y rs P).
+  Proof.
+    intros C1 C2. unfold d_h3, d_h2. cbn [encok]. split; [split|]; [|exact C1|exact C2].
+    unfold d_h1, hm1, h0, empty. atoms.
+  Qed.
+
+  Lemma d_c3_encok tr a e s y rs P :
+    In (AcceptD a e s P rs (d_key e s y rs)) tr ->
+    encok tr (d_c1 e y rs) -> encok tr (d_c2 e y rs P) -> encok tr (d_c3 e s y rs P).
+  Proof.
+    intros A C1 C2. unfold d_c3. cbn [encok]. split; [|split; [|split]].
+    - right. right. exists a, e, s, y, rs, P. split; [exact A|left; reflexivity].
+    - unfold d_k2, d_k1, ck0. atoms.
+    - apply d_h3_encok; assumption.
+    - exact I.
+  Qed.
+
+  Lemma d_c4_encok tr a e s y rs P :
+    In (AcceptD a e s P rs (d_key e s y rs)) tr ->
+    encok tr (d_c1 e y rs) -> encok tr (d_c2 e y rs P) -> encok tr (d_c4 a e s y rs P).
+  Proof.
+    intros A C1 C2. unfold d_c4. cbn [encok]. split; [|split; [|split]].
+    - right. right. exists a, e, s, y, rs, P. split; [exact A|right; reflexivity].
+    - unfold d_key, d_k2, d_k1, ck0. atoms.
+    - unfold d_h4. cbn [encok]. split; [apply d_h3_encok; assumption|].
+      exact (d_c3_encok tr a e s y rs P A C1 C2).
+    - apply payload_encok.
+  Qed.
+
+  Lemma valid_sent_encok tr : valid tr -> forall t, In (Send t) tr -> encok tr t.
+  Proof.
+    induction 1 as [|tr t V IH K|tr a e s V IH|tr a e s V IH|tr a e s y V IH I0|
+                    tr a e s y rs P V IH I0 K|tr a e s y rs P V IH I0 I2 K]; intros u U.
+    - destruct U.
+    - destruct U as [[= <-]|U].
+      + apply (encok_mono tr); [apply incl_tl, incl_refl|].
+        exact (knows_encok tr (valid_sent_pub tr V) IH t K).
+      + apply (encok_mono tr); [apply incl_tl, incl_refl|]. exact (IH u U).
+    - destruct U as [[= <-]|[U|[U|U]]]; try discriminate; [exact I|].
+      apply (encok_mono tr); [do 3 apply incl_tl; apply incl_refl|]. exact (IH u U).
+    - destruct U as [U|[U|U]]; try discriminate.
+      apply (encok_mono tr); [do 2 apply incl_tl; apply incl_refl|]. exact (IH u U).
+    - destruct U as [[= <-]|U].
+      + (* message 2 of the listener session (a, e, s) *)
+        apply (encok_mono tr); [apply incl_tl, incl_refl|].
+        unfold msg2. cbn [encok]. split; [exact I|]. split.
+        * exact (l_c1_encok tr a e s y I0).
+        * exact (l_c2_encok tr a e s y I0).
+      + apply (encok_mono tr); [apply incl_tl, incl_refl|]. exact (IH u U).
+    - destruct U as [U|[[= <-]|U]]; try discriminate.
+      + (* message 3 of the dialer session (a, e, s): the ciphertexts it read are the attacker's *)
+        set (tr' := AcceptD a e s P rs (d_key e s y rs) :: Send (msg3 a e s y rs P) :: tr).
+        pose proof (knows_encok tr (valid_sent_pub tr V) IH _ K) as M2.
+        apply (encok_mono tr tr') in M2; [|do 2 apply incl_tl; apply incl_refl].
+        unfold msg2_expected in M2. cbn [encok] in M2. destruct M2 as (_ & M21 & M22).
+        assert (A : In (AcceptD a e s P rs (d_key e s y rs)) tr') by (left; reflexivity).
+        unfold msg3. cbn [encok]. split.
+        * exact (d_c3_encok tr' a e s y rs P A M21 M22).
+        * exact (d_c4_encok tr' a e s y rs P A M21 M22).
+      + apply (encok_mono tr); [do 2 apply incl_tl; apply incl_refl|]. exact (IH u U).
+    - destruct U as [U|U]; try discriminate.
+      apply (encok_mono tr); [apply incl_tl, incl_refl|]. exact (IH u U).
+  Qed.
+
+  Lemma knows_encok_valid tr t : valid tr -> knows tr t -> encok tr t.
+  Proof. intros V. apply knows_encok; [apply valid_sent_pub|apply valid_sent_encok]; exact V. Qed.
+
+  Lemma h0_inj p q : h0 p = h0 q -> p = q.
+  Proof. unfold h0. intros [= E]. exact E. Qed.
+
+  (* AUTHENTICATION WITH AGREEMENT, dialer.  If an honest dialer session (ephemeral e) completes
+     believing in an uncompromised P, then the ephemeral key g^y and the static key g^rs it received
+     belong to ONE listener session of P — (P, y, rs) is a listener session in the trace —, that
+     session was created with the same prologue, and the message 2 the dialer accepted is,
+     component for component, the message that session builds in answer to this dialer's g^e. *)
+  Theorem dialer_agreement tr a e s P rs K :
+    valid tr -> In (AcceptD a e s P rs K) tr -> ~ bad P ->
+    exists y, K = d_key e s y rs /\ In (NewL P y rs) tr /\ pro e = pro y /\
+              msg2_expected e y rs P = msg2 P y rs e.
+  Proof.
+    intros V A G.
+    destruct (acceptD_origin tr V _ _ _ _ _ _ A) as (tr0 & y & I0 & V0 & N0 & K0 & -> & _).
+    destruct (delivered_payload tr0 P rs _ V0 K0 G) as (_ & e' & O).
+    { unfold msg2_expected, d_c2. cbn [sigok]. tauto. }
+    destruct (session_secrets tr0 V0 P e' rs O) as [_ Hrs].
+    destruct (session_secrets tr0 V0 a e s (or_introl N0)) as [He _].
+    pose proof (knows_encok_valid tr0 _ V0 K0) as EK.
+    unfold msg2_expected in EK. cbn [encok] in EK. destruct EK as (_ & _ & EK).
+    unfold d_c2 in EK. cbn [encok] in EK. destruct EK as ([PK|HE] & _).
+    { exfalso. unfold d_k2 in PK. cbn [pub] in PK. destruct PK as [_ PK]. apply pub_dh in PK. tauto. }
+    exists y. split; [reflexivity|].
+    destruct HE as [(a' & e1 & s1 & y1 & N1 & [E|E])|(a' & e1 & s1 & y1 & rs1 & P1 & _ & [E|E])].
+    - exfalso. unfold l_c1, d_k2, d_k1, l_k1, ck0 in E. discriminate E.
+    - unfold l_c2, d_k2, d_k1, l_k2, l_k1, d_h2, l_h2, d_h1, l_h1, hm1, payload, signed_part in E.
+      injection E. intros Es Ea _ _ Ee1 Ey1 Ep _ _ _ _ _ _. subst s1 a' e1 y1.
+      assert (M : msg2_expected e y rs P = msg2 P y rs e).
+      { unfold msg2_expected, msg2, d_c2, l_c2, d_h2, l_h2, d_c1, l_c1, d_h1, l_h1, d_k2, l_k2, d_k1, l_k1.
+        rewrite Ep, (dh_comm e y), (dh_comm e rs). reflexivity. }
+      repeat split; auto.
+    - exfalso. unfold d_c3, payload in E. discriminate E.
+    - exfalso. unfold d_c4, d_key, d_k2, d_k1, ck0 in E. discriminate E.
+  Qed.
+
+  (* AUTHENTICATION WITH AGREEMENT, listener (it finishes last).  If an honest listener session
+     (agent a, secrets e, s) completes believing in an uncompromised P, then a dialer session of P
+     with the ephemeral key g^y this listener answered and the static key g^rs it received has
+     COMPLETED, accepting exactly this listener — agent a, static key g^s — with the very same
+     session key, and was created with the same prologue. *)
+  Theorem listener_agreement tr a e s P rs K :
+    valid tr -> In (AcceptL a e s P rs K) tr -> ~ bad P ->
+    exists y, K = l_key e s y rs /\ In (NewD P y rs) tr /\ In (AcceptD P y rs a s K) tr /\
+              pro e = pro y.
+  Proof.
+    intros V A G.
+    destruct (acceptL_origin tr V _ _ _ _ _ _ A) as (tr0 & y & I0 & V0 & N0 & _ & K0 & ->).
+    destruct (delivered_payload tr0 P rs _ V0 K0 G) as (_ & e' & O).
+    { unfold msg3_expected, l_c4. cbn [sigok]. tauto. }
+    destruct (session_secrets tr0 V0 P e' rs O) as [_ Hrs].
+    destruct (session_secrets tr0 V0 a e s (or_intror N0)) as [He _].
+    pose proof (knows_encok_valid tr0 _ V0 K0) as EK.
+    unfold msg3_expected in EK. cbn [encok] in EK. destruct EK as (_ & EK).
+    unfold l_c4 in EK. cbn [encok] in EK. destruct EK as ([PK|HE] & _).
+    { exfalso. unfold l_key in PK. cbn [pub] in PK. destruct PK as [_ PK]. apply pub_dh in PK. tauto. }
+    exists y. split; [reflexivity|].
+    destruct HE as [(a' & e1 & s1 & y1 & _ & [E|E])|(a' & e1 & s1 & y1 & rs1 & P1 & AD & [E|E])].
+    - exfalso. unfold l_c1, l_key, l_k2, l_k1, ck0 in E. discriminate E.
+    - exfalso. unfold l_c2, l_key, l_k2, l_k1, ck0 in E. discriminate E.
+    - exfalso. unfold d_c3, l_key, l_k2, d_k2, d_k1, l_k1, ck0 in E. discriminate E.
+    - unfold d_c4, l_c4, l_key, d_key, l_h4, d_h4, l_c3, d_c3, l_h3, d_h3, l_c2, d_c2, l_h2, d_h2,
+        l_h1, d_h1, hm1, payload, signed_part in E.
+      injection E. intros Es1 Ea' _ _ Ers1 EP1 _ _ Ey1 Ee1 Ep. repeat (intros _).
+      subst s1 a' rs1 P1 y1 e1.
+      assert (EKey : d_key y rs e s = l_key e s y rs).
+      { unfold d_key, l_key, d_k2, l_k2, d_k1, l_k1.
+        rewrite (dh_comm y e), (dh_comm y s), (dh_comm rs e). reflexivity. }
+      rewrite EKey in AD. apply I0 in AD.
+      destruct (acceptD_origin tr V _ _ _ _ _ _ AD) as (tr1 & y2 & I1 & _ & N1 & _).
+      repeat split; auto.
+  Qed.
+
 End DY.
 
 (* ---- non-vacuity: the honest run is a valid trace in which both sessions complete with the
-   same key, with nobody compromised ---- *)
+   same key, with nobody compromised — provided the two sessions were created with the same
+   prologue (with different ones the dialer would not accept message 2) ---- *)
 Definition nobody (_ : N) : Prop := False.
 
-Definition honest_trace : list event :=
+Definition honest_trace (pro : N -> list N) : list event :=
   [AcceptL 20 3 4 10 2 (l_key 3 4 1 2);
-   AcceptD 10 1 2 20 4 (d_key 1 2 3 4); Send (msg3 10 1 2 3 4 20);
-   Send (msg2 20 3 4 1);
+   AcceptD 10 1 2 20 4 (d_key 1 2 3 4); Send (msg3 pro 10 1 2 3 4 20);
+   Send (msg2 pro 20 3 4 1);
    Signed 20 (signed_part 4); NewL 20 3 4;
    Send (TPub 1); Signed 10 (signed_part 2); NewD 10 1 2].
 
-Lemma honest_trace_valid : valid nobody nobody honest_trace.
+Lemma honest_trace_valid pro : pro 1 = pro 3 -> valid pro nobody nobody (honest_trace pro).
 Proof.
+  intros EP.
   assert (F : forall tr x, (forall a e s, In (NewD a e s) tr \/ In (NewL a e s) tr -> x <> e /\ x <> s) ->
                            fresh nobody tr x).
   { intros tr x Hx. split; [intros []|]. intros (a & e & s & U & [E|E]); destruct (Hx a e s U); congruence. }
+  assert (M2 : msg2_expected pro 1 3 4 20 = msg2 pro 20 3 4 1).
+  { unfold msg2_expected, msg2, d_c1, l_c1, d_c2, l_c2, d_h2, l_h2, d_c1, l_c1, d_h1, l_h1, d_k2, l_k2, d_k1, l_k1.
+    rewrite EP. reflexivity. }
+  assert (M3 : msg3_expected pro 20 3 4 1 2 10 = msg3 pro 10 1 2 3 4 20).
+  { unfold msg3_expected, msg3, l_c3, d_c3, l_c4, d_c4, l_h4, d_h4, l_c3, d_c3, l_h3, d_h3, l_key, d_key,
+      d_c2, l_c2, d_h2, l_h2, d_c1, l_c1, d_h1, l_h1, d_k2, l_k2, d_k1, l_k1.
+    rewrite EP. reflexivity. }
   unfold honest_trace.
-  apply (v_L4 nobody nobody _ 20 3 4 1 2 10).
-  - apply (v_D3 nobody nobody _ 10 1 2 3 4 20).
+  apply (v_L4 pro nobody nobody _ 20 3 4 1 2 10).
+  - apply (v_D3 pro nobody nobody _ 10 1 2 3 4 20).
     + apply v_L2.
       * apply v_newL.
         -- apply v_newD; [apply v_nil| | |discriminate]; apply F; intros a e s [[]|[]].
@@ -633,10 +855,10 @@ Proof.
         -- discriminate.
       * cbn. auto.
     + cbn. auto 10.
-    + apply k_sent. left. reflexivity.
+    + rewrite M2. apply k_sent. left. reflexivity.
   - cbn. auto 10.
   - cbn. auto 10.
-  - apply k_sent. right. left. reflexivity.
+  - rewrite M3. apply k_sent. right. left. reflexivity.
 Qed.
 
 Lemma honest_trace_keys_agree : d_key 1 2 3 4 = l_key 3 4 1 2.
